@@ -2,14 +2,17 @@
 (***************************************************************************)
 (* Validation of colorings computed by the real code against Coloring.tla  *)
 (* (C03).  The harness calls openmdao.utils.coloring._compute_coloring on  *)
-(* every enumerated sparsity pattern and writes, per case, the pattern,    *)
-(* the mode, the method and the projection of the resulting Coloring       *)
-(* object (indices 1-based):                                               *)
-(*   [nr, nc, P: <<r,c>>..., mode: "fwd"|"rev"|"auto", direct: BOOLEAN,     *)
+(* every enumerated sparsity pattern (modes fwd, rev, auto with the direct *)
+(* and the substitution method) and writes, per distinct result, the       *)
+(* pattern and the projection of the Coloring object (indices 1-based):    *)
+(*   [nr, nc, P: <<r,c>>..., modes: <<"fwd"|"rev"|"auto", ...>>,            *)
 (*    K: [fg: groups of columns, fnz: per column the rows read back,       *)
 (*        rg: groups of rows,    rnz: per row the columns read back,       *)
 (*        subs: <<[pos: <<r,c>>, sub: <<r,c>>...]...>> in application order],*)
 (*    fs, rs: solves of the real single-direction colorings of P]          *)
+(* `modes` lists every requested mode for which the code returned exactly  *)
+(* this coloring of P (mode auto returns the fwd or rev coloring when the  *)
+(* bidirectional one is not better), so that Valid is evaluated once.      *)
 (* TLC evaluates the specification's predicates on each of them; one case  *)
 (* per state so that the workers share the work.  Same state variables as  *)
 (* the self-check of Coloring.tla: here `scen` is the case number.         *)
@@ -28,16 +31,18 @@ Projected(c) == [fg |-> [k \in DOMAIN c.K.fg |-> Range(c.K.fg[k])],
 
 \* the code's own promise for mode "auto": the bidirectional coloring is kept only when it needs fewer solves than
 \* the fwd coloring and not more than the rev coloring (fs, rs come from the real single-direction runs on P)
-Fallback(c, K) == c.mode = "auto" => Solves(K) <= c.fs /\ Solves(K) <= c.rs
+Fallback(c, K, mode) == mode = "auto" => Solves(K) <= c.fs /\ Solves(K) <= c.rs
 
 Judge(c) ==
     LET S == Problem(c)
         K == Projected(c)
-        v == Verdict(S, K, c.mode)
-    IN [wf |-> v.wf, valid |-> v.valid, partition |-> v.partition, noworse |-> v.noworse,
-        fallback |-> Fallback(c, K), solves |-> v.solves,
+        wf == WellFormed(S, K)
+    IN [wf |-> wf, valid |-> wf /\ Valid(S, K), solves |-> Solves(K),
+        partition |-> [i \in DOMAIN c.modes |-> wf /\ Partition(S, K, c.modes[i])],
+        noworse |-> [i \in DOMAIN c.modes |-> NoWorse(S, K, c.modes[i])],
+        fallback |-> [i \in DOMAIN c.modes |-> Fallback(c, K, c.modes[i])],
         \* a substitution coloring that would also be valid without its subtraction steps carries useless ones
-        needsubs |-> IF K.subs = <<>> THEN FALSE ELSE v.wf /\ ~Valid(S, [K EXCEPT !.subs = <<>>])]
+        needsubs |-> IF K.subs = <<>> THEN FALSE ELSE wf /\ ~Valid(S, [K EXCEPT !.subs = <<>>])]
 
 JInit == stage = 0 /\ verdict = <<>> /\ scen \in 1..Len(Cases)
 JNext == stage = 0 /\ stage' = 1 /\ verdict' = Judge(Cases[scen]) /\ UNCHANGED scen
